@@ -133,6 +133,8 @@ async def check_scheduler(case, rec):
         rec.label("grant-with->=2-admissible")
     if s["c13_not_first_declared"]:
         rec.label("first-admissible-is-not-first-declared")
+    if s.get("c13_skipped_first"):
+        rec.label("first-target-inadmissible-placed-on-a-later-one")
     if s["waited_granted"]:
         rec.label("waited-then-granted")
     if s.get("no_survivor"):
